@@ -166,6 +166,8 @@ def run(ctx):
     part.merge(core.fan_out(ctx, _rows_chunk, [(c, s_ticks) for c in core.split(rows2, 64)]))
     part.merge(core.fan_out(ctx, _limit_chunk,
                             [(c, ctx.pick(200, 600)) for c in core.split(limit_rows(ctx), 64)]))
+    from .. import calcseq                 # pylint: disable=import-outside-toplevel
+    part.merge(calcseq.explore(ctx, ['max_rate_t3']))
     cnt = part.counters
     coverage = {
         "over_limit_states": cnt.get("over_limit_states", 0),
@@ -183,6 +185,7 @@ def run(ctx):
         "samples": core.rotate(part.samples, ctx.seed, 4),
         "rows": cnt.get("rows", 0),
         "max_ticks": max_ticks,
+        "call_histories_siblings_then_twice": cnt.get("calc_histories", 0),
         "exhaustive": True,
     }
     assumptions = ["firmware T3 recurrence as in the property statement; domain |rate_k|, "
@@ -191,6 +194,9 @@ def run(ctx):
 
 
 def replay(case):
+    if case.get("kind") == "calc_history":
+        from .. import calcseq             # pylint: disable=import-outside-toplevel
+        return calcseq.replay(case)
     rate, accel, jerk, ticks = case["rate"], case["accel"], case["jerk"], case["ticks"]
     if case["kind"] == "limit":
         sub = core.Part()
